@@ -18,6 +18,25 @@ Theorem sets_exec_eq S F G fuel d :
   run fixed S F [] (sdoc_prog fuel d) = run fixed (erase S F) G [] (sdoc_prog fuel d).
 Proof. intros Hok HFG. apply (noninterference (sdoc_prog fuel d) S F G Hok HFG). Qed.
 
+Theorem subscription_eq S F G fuel events d :
+  schema_ok S = true -> subset F G = true ->
+  run fixed S F [] (ssub_prog fuel events d) = run fixed (erase S F) G [] (ssub_prog fuel events d).
+Proof. intros Hok HFG. apply (noninterference (ssub_prog fuel events d) S F G Hok HFG). Qed.
+
+(** plumbing: once a WebSocket connection is initialised, no change of the environment reaches its
+    operations and subscription events *)
+Lemma ws_frozen h : forall env F,
+  (forall st, In st h -> st <> PInit) ->
+  forall o, In o (ws_effective env (Some F) h) -> o = Some F.
+Proof.
+  induction h as [|st r IH]; intros env F Hn o Ho; [contradiction|].
+  assert (Hr : forall st', In st' r -> st' <> PInit) by (intros st' H'; apply Hn; right; exact H').
+  destruct st as [now | |]; cbn [ws_effective] in Ho.
+  - eapply IH; eauto.
+  - exfalso. apply (Hn PInit); [left|]; reflexivity.
+  - destruct Ho as [Ho | Ho]; [symmetry; exact Ho | eapply IH; eauto].
+Qed.
+
 (** ** discipline *)
 Scheme sel_mind := Induction for sel Sort Prop
   with sels_mind := Induction for sels Sort Prop.
@@ -368,6 +387,34 @@ Section DocDiscipline.
       - cbn [collect]. apply collect_go_ok. exact IH.
     Qed.
 
+    Lemma sels_tcs_app a b : sels_tcs (sels_app a b) = sels_tcs a ++ sels_tcs b.
+    Proof. induction a as [|x r IH]; cbn [sels_app sels_tcs]; [reflexivity|]. rewrite IH, app_assoc. reflexivity. Qed.
+
+    Lemma group_add_good kn e g : good kn (ce_sub e) -> good_entries kn g -> good_entries kn (group_add e g).
+    Proof.
+      intros He. induction g as [|x r IH]; intros Hg; cbn [group_add].
+      - intros e' [H | []]. subst. exact He.
+      - destruct (bytes_eqb (ce_key e) (ce_key x)).
+        + intros e' [H | H].
+          * subst e'. cbn [ce_sub]. intros t Ht. rewrite sels_tcs_app in Ht.
+            apply in_app_or in Ht as [Ht | Ht]; [apply (Hg x (or_introl eq_refl)); exact Ht | apply He; exact Ht].
+          * apply Hg. right; exact H.
+        + intros e' [H | H]; [subst; apply Hg; left; reflexivity|].
+          apply IH; [|exact H]. intros y Hy. apply Hg. right; exact Hy.
+    Qed.
+
+    Lemma group_entries_good kn es : good_entries kn es -> good_entries kn (group_entries es).
+    Proof.
+      unfold group_entries. intro H.
+      assert (K : forall acc, good_entries kn acc -> good_entries kn es ->
+                  good_entries kn (fold_left (fun g e => group_add e g) es acc)).
+      { clear H. induction es as [|e r IH]; intros acc Ha He; [exact Ha|].
+        cbn [fold_left]. apply IH.
+        - apply group_add_good; [apply He; left; reflexivity | exact Ha].
+        - intros y Hy. apply He. right; exact Hy. }
+      apply K; [intros e [] | exact H].
+    Qed.
+
     Definition exec_ok (rec : name -> sels -> elog -> prog eres) : Prop :=
       forall obj l log known,
         mem obj known = true -> good known l -> good_frs frs known ->
@@ -451,10 +498,10 @@ Section DocDiscipline.
       - cbn [sexec]. apply wp_bind.
         eapply wp_mono; [|apply (collect_ok n obj l ([], []) known Ho Hg Hf)].
         + intros c kn [Hi Hc]. destruct c as [st|]; [|apply wp_ret; exact Hi].
-          eapply wp_mono; [|apply (exec_fields_ok (sexec frs n) IH obj (snd st) log [] kn)].
+          eapply wp_mono; [|apply (exec_fields_ok (sexec frs n) IH obj (group_entries (snd st)) log [] kn)].
           * intros x kn' Hi'. cbv beta in *; eapply incl_known_trans; eauto.
           * apply Hi; exact Ho.
-          * exact Hc.
+          * apply group_entries_good. exact Hc.
           * cbv beta in *; eapply good_frs_mono; eauto.
         + intros e [].
     Qed.
